@@ -213,7 +213,7 @@ package goa
 
 //@ func ValidateFormat
 //@   params name val f
-//@   property C17
+//@   property C17 C20
 //@   ensures* date: f == "date" ==> (result == nil) == timeOk("2006-01-02", val)
 //@   ensures* datetime: f == "date-time" ==> (result == nil) == timeOk("2006-01-02T15:04:05Z07:00", val)
 //@   ensures* uuid: f == "uuid" ==> (result == nil) == (uuidOk(val) && uuidVariant(uuidVal(val)) == 1)
